@@ -230,7 +230,7 @@ expression generated for rule `ru` is `EOI` (rule 0, a leaf) or the struct of a 
 identifier of `ru`'s body, i.e. the target of an edge `ru.name → name`; and the skip type mentioned by
 every sequence / repetition refers to `WHITESPACE` / `COMMENT` only. -/
 theorem C20_ref_edges (g : PGrammar) (ru : PRule) (hru : ru ∈ g) (k : RuleId)
-    (hk : k ∈ (genRule g ru).body.refs) :
+    (hk : k ∈ (genRule g ru).body.ruleRefs) :
     k = 0 ∨ ∃ name, refEdge g ru.name name ∧ g.indexOf name = some (k - 1) ∧ 0 < k := by
   rcases (genExpr_refs g (atomFlag (kindAtomicity ru.kind)) ru.expr).1 k hk with h0 | ⟨name, hn, hi, hp⟩
   · exact Or.inl h0
